@@ -55,21 +55,30 @@ def bindSameNode (s : State) (ns name node : String) : Bool :=
   | none => true
   | some l => s.alloc.all (fun e => e.2.key ≠ keyOf l || (e.2.uid != 0 && e.2.uid != l.uid) || e.2.node == "" || e.2.node == node)
 
-/-- the side conditions of the C10 theorems, evaluated in the state a move starts from:
-    * no apiserver fault (the property quantifies over PROVIDER calls failing cleanly; `pfault` is arbitrary);
-    * reload (excluded by the property's quantifier), restart and the pod-IP sync pass are not in the move set;
-    * `bind`: `bindSameNode`;
-    * no pod key owns two addresses (`singleKeys`; second genuine deviation of the code, see Props/C10). -/
+/-- Bind re-uses no address: nothing is stored under the pod's key for the requests, so no `UpdateAttr` call is made -/
+def bindNoReuse (s : State) (ns name : String) (ch : Choice) : Bool :=
+  match s.vPods.get (ns, name) with
+  | none => true
+  | some l =>
+    match bindInfos s l ch with
+    | none => true
+    | some infos => (infos.filterMap id).isEmpty
+
+/-- the side conditions of the C10 theorems, evaluated in the state a move starts from.  Apiserver faults (one failing
+    call per move, index arbitrary) and provider faults are allowed in EVERY move, with one exception:
+    * `bind`: `bindSameNode`, and the apiserver fault does not hit an `UpdateAttr` call - the fault index is 0 or the bind
+      re-uses no address (`bindNoReuse`).  (AssignIP ok + UpdateAttr failed leaves the provider with an assignment the
+      record does not name: third deviation of the code, see Props/C10.)
+    * `resync`, `resyncRec`, API release: no pod key owns two addresses (`singleKeys`);
+    * `restart`: no store object orphaned by a failed delete of a reload is left (there is none without a reload);
+    * `reload` is not in the move set (excluded by the property's quantifier). -/
 def assumed10 (s : State) : Move → Bool
   | .reload _ _ => false
-  | .restart => false
-  | .syncPodIPs _ => false
-  | .filter _ _ _ _ fault => fault == 0 && singleKeys s
-  | .bind ns name _ node _ fault _ => fault == 0 && singleKeys s && bindSameNode s ns name node
-  | .deliver _ fault _ => fault == 0 && singleKeys s
-  | .resync _ fault _ => fault == 0 && singleKeys s
-  | .resyncRec _ fault _ => fault == 0 && singleKeys s
-  | .apiRelease _ _ fault _ => fault == 0 && singleKeys s
+  | .restart => s.orphans.isEmpty
+  | .bind ns name _ node ch fault _ => (fault == 0 || bindNoReuse s ns name ch) && bindSameNode s ns name node
+  | .resync _ _ _ => singleKeys s
+  | .resyncRec _ _ _ => singleKeys s
+  | .apiRelease _ _ _ _ => singleKeys s
   | _ => true
 
 end Galaxy.PluginC10
